@@ -2,7 +2,7 @@
 # Writes /verif/seeded/<id>/meta.json for every seeded change and /verif/seeded/SUMMARY.md (table).
 import glob, json, os, re
 rows = []
-for d in sorted(glob.glob('/verif/seeded/C*-m*')):
+for d in sorted(glob.glob('/verif/seeded/C*-*m[12]')):
     name = os.path.basename(d)
     pid = name.split('-')[0]
     readme = open(f'{d}/README.md').read() if os.path.exists(f'{d}/README.md') else ''
